@@ -3,13 +3,6 @@
 //! nothing).
 use crate::prelude::*;
 
-pub fn style(width: u32, align: StrokeAlignment, fill: Option<Gray8>, stroke: Option<Gray8>) -> PrimitiveStyle<Gray8> {
-    let mut b = PrimitiveStyleBuilder::new().stroke_width(width).stroke_alignment(align);
-    if let Some(c) = fill { b = b.fill_color(c); }
-    if let Some(c) = stroke { b = b.stroke_color(c); }
-    b.build()
-}
-
 /// symbolic colour presence with distinct colour values
 pub fn sym_colors() -> (Option<Gray8>, Option<Gray8>) {
     let f = gray8();
@@ -259,3 +252,58 @@ pub fn c06_q_twin_rect() {
     kani::assume(st.stroke_area().contains(q) && !st.fill_area().contains(q) && st.style.stroke_width > 0);
     check!(a.last != Some(Gray8::new(2)), "twin.must_fail");
 }
+
+// ------------------------------------------------------------------ C01 for drawables that are not
+// closed shapes (regime G: listed geometry, symbolic colour values and probe)
+macro_rules! c01_g {
+    ($name:ident, $unw:expr, [$(($shape:expr, $style:expr)),+ $(,)?]) => {
+        #[cfg_attr(kani, kani::proof, kani::unwind($unw))]
+        pub fn $name() {
+            let q = point(5);
+            note!("q", q);
+            let (f, s) = (gray8(), gray8());
+            kani::assume(f != s);
+            $( {
+                let st = $shape.into_styled($style(f, s));
+                note!("styled", st);
+                let big = Rectangle::new(Point::new(-100000, -100000), Size::new(200000, 200000));
+                let mut a = NProbe::<Gray8>::new(q, big);
+                st.draw(&mut a).unwrap();
+                let mut b = Probe::<Gray8>::new(q, big);
+                st.draw(&mut b).unwrap();
+                let mut c = Probe::<Gray8>::new(q, big);
+                c.draw_iter(st.pixels()).unwrap();
+                note!("native", a.last); note!("default", b.last); note!("pixels", c.last);
+                check!(a.last == b.last, "C01.native_eq_default");
+                check!(c.last == b.last, "C01.pixels_eq_draw");
+                if a.last.is_some() || c.last.is_some() { check!(in_rect(&st.bounding_box(), q), "C02.inside_bbox"); }
+                if st.style.is_transparent() { check!(a.writes == 0 && c.writes == 0, "C02.transparent_draws_nothing"); }
+            } )+
+            reach!(true, "reach.end");
+        }
+    };
+}
+const PL_A: [Point; 3] = [Point::new(0, 0), Point::new(4, 2), Point::new(1, 5)];
+const PL_B: [Point; 1] = [Point::new(2, 2)];
+fn tri_a() -> Triangle { Triangle::new(Point::new(0, 0), Point::new(5, 1), Point::new(2, 4)) }
+fn tri_b() -> Triangle { Triangle::new(Point::new(-3, 2), Point::new(1, -2), Point::new(3, 3)) }
+c01_g!(c01_c02_q_g_triangles_fill, 40, [
+    (tri_a(), |f, _s| style(0, StrokeAlignment::Center, Some(f), None)),
+    (tri_b(), |f, s| style(0, StrokeAlignment::Center, Some(f), Some(s))),
+]);
+c01_g!(c01_c02_q_g_triangles_stroke1, 40, [
+    (tri_a(), |f, s| style(1, StrokeAlignment::Center, Some(f), Some(s))),
+    (tri_b(), |_f, s| style(1, StrokeAlignment::Center, None, Some(s))),
+]);
+// fill colour set, stroke width > 0 but NO stroke colour
+c01_g!(c01_c02_q_g_triangles_fill_nostroke_w1, 40, [
+    (tri_a(), |f, _s| style(1, StrokeAlignment::Inside, Some(f), None)),
+]);
+c01_g!(c01_c02_q_g_polyline_thin, 40, [
+    (Polyline::new(&PL_A), |_f, s| PrimitiveStyle::with_stroke(s, 1)),
+    (Polyline::new(&PL_B), |_f, s| PrimitiveStyle::with_stroke(s, 1)),
+]);
+c01_g!(c01_c02_q_g_arc_sector, 60, [
+    (Sector::new(Point::new(0, 0), 6, Angle::from_degrees(0.0), Angle::from_degrees(90.0)), |f, s| style(1, StrokeAlignment::Inside, Some(f), Some(s))),
+    (Arc::new(Point::new(-2, -1), 5, Angle::from_degrees(45.0), Angle::from_degrees(180.0)), |_f, s| PrimitiveStyle::with_stroke(s, 1)),
+]);
